@@ -354,7 +354,14 @@ impl Float {
         }
 
         let orig_sem = self.get_semantics();
-        let sem = orig_sem.grow_log(12).increase_exponent(4);
+        // The tangent vanishes at the multiples of pi, where the range
+        // reduction cancels up to 'precision' leading bits of the argument.
+        // Double the working precision to keep the result accurate to the
+        // last place there as well.
+        let sem = orig_sem
+            .increase_precision(orig_sem.get_precision())
+            .grow_log(12)
+            .increase_exponent(4);
 
         assert!(self.is_normal());
 
